@@ -1,19 +1,20 @@
 (* C13: one merge followed by the removal the loop performs conserves the sums of m, m v, m x over the WHOLE array. *)
 From Coq Require Import List ZArith Reals Lra Lia ZifyBool Bool Permutation.
-From RV Require Import Common.Num Common.RealNum C13.Model C13.Fixup C13.Resolve.
+From RV Require Import Common.Num Common.RealNum C13.Model C13.LoopNA C13.Fixup C13.Resolve.
 Import ListNotations.
 
 (* reb_simulation_remove_particle without a tree removes exactly the element at the index (both disciplines) *)
 Lemma remove_perm {P : Type} (flag : P -> P) keep (ps : list P) k x :
   zth ps k = Some x ->
-  exists ps', remove_particle flag false keep ps k = (ps', true) /\ Permutation (x :: ps') ps.
+  exists ps', remove_particle_na flag false keep ps k = (ps', true) /\ Permutation (x :: ps') ps.
 Proof.
   intros Hk. pose proof (zth_range _ _ _ Hk) as Hr.
   apply zth_some in Hk. destruct Hk as [Hk0 Hk].
   destruct (nth_error_split _ _ Hk) as (l1 & l2 & E & Hl1). subst ps.
   assert (HKn : Z.to_nat k = length l1) by lia.
-  unfold remove_particle. rewrite HKn. rewrite HKn in Hk.
+  unfold remove_particle_na. rewrite HKn. rewrite HKn in Hk.
   match goal with |- context [if ?c then _ else _] => destruct c eqn:E1 end; [lia|].
+  rewrite andb_false_r, andb_true_r. cbn [negb].
   match goal with |- context [if ?c then _ else _] => destruct c eqn:E2 end.
   { rewrite zlen_app, zlen_cons in E2. pose proof (zlen_nonneg l1). pose proof (zlen_nonneg l2).
     assert (l1 = []) by (destruct l1; [auto | rewrite zlen_cons in *; pose proof (zlen_nonneg l1); lia]).
@@ -70,7 +71,7 @@ Theorem merge_total (flag : particle R -> particle R) t cb ps p1 p2 a b keep :
   zth ps p1 = Some a -> zth ps p2 = Some b -> p1 <> p2 -> plc a <> t -> plc b <> t -> pm a + pm b <> 0 ->
   exists ps' ps'',
     fst (merge RNum t cb ps p1 p2) = ps' /\
-    remove_particle flag false keep ps' (gone_ix p1 p2) = (ps'', true) /\
+    remove_particle_na flag false keep ps' (gone_ix p1 p2) = (ps'', true) /\
     S (length ps'') = length ps /\
     Forall (fun f => tot f ps'' = tot f ps) conserved.
 Proof.
@@ -100,4 +101,22 @@ Proof.
     { intros f. pose proof (tot_perm f _ _ Hperm) as E. rewrite tot_cons in E. rewrite (tot_upd f _ _ _ q Zi) in E. lra. }
     unfold mom, mpos, add3 in Pq', Xq'. injection Pq' as P1 P2 P3. injection Xq' as X1 X2 X3.
     unfold conserved. repeat constructor; rewrite T; lra.
+Qed.
+
+(* the same for the model's reb_simulation_remove_particle (with N_active), when no second particle is moved *)
+Theorem merge_total_model (flag : particle R -> particle R) t cb ps p1 p2 a b keep nact :
+  na_ok false keep nact ->
+  zth ps p1 = Some a -> zth ps p2 = Some b -> p1 <> p2 -> plc a <> t -> plc b <> t -> pm a + pm b <> 0 ->
+  exists ps' ps'' nact',
+    fst (merge RNum t cb ps p1 p2) = ps' /\
+    remove_particle flag false keep nact ps' (gone_ix p1 p2) = (ps'', nact', true) /\
+    S (length ps'') = length ps /\
+    Forall (fun f => tot f ps'' = tot f ps) conserved.
+Proof.
+  intros Hok Z1 Z2 Hne La Lb Hm.
+  destruct (merge_total flag t cb ps p1 p2 a b keep Z1 Z2 Hne La Lb Hm) as (ps' & ps'' & E1 & E2 & E3 & E4).
+  destruct (remove_particle flag false keep nact ps' (gone_ix p1 p2)) as [[x n'] c] eqn:E.
+  destruct (remove_particle_is_na flag _ _ _ _ _ _ _ _ Hok E) as [E' _].
+  rewrite E2 in E'. injection E' as <- <-.
+  exists ps', ps'', n'. auto.
 Qed.
